@@ -25,6 +25,7 @@ ORACLES = {
     "C09": ["oracle_c09"],
     "C11": ["oracle_c11", "c11_"],
     "C13": ["c13_"],
+    "C15": ["c15_"],
     "C16": ["oracle_c16", "c16_"],
     "C18": ["oracle_c18"],
 }
